@@ -438,6 +438,7 @@ impl<'a> ReadAdapter<'a> {
             unsafe {
                 self.buf.set_len(0);
             }
+            self.pos = 0;
         }
 
         Ok(output)
